@@ -715,25 +715,28 @@ func checkC06(c *Ctx) {
 				}
 				continue
 			}
-			switch fn.Name() {
-			case "findControlDeps":
-				// decided in detail by C05.ctl; here: guarded by jump targets
-				g := false
-				for _, gd := range GuardsOf(cs.Block()) {
-					if DependsOn(gd.Cond, func(v ssa.Value) bool {
-						n, _, ok := FieldNameOfLoad(v)
-						return ok && n == "jumpTargets"
-					}) {
-						g = true
-					}
+			// not a table scanner: the edge needs one of the two other witnesses of
+			// conflict, whatever the function is called - the last instruction of
+			// the block has jump targets (control edge), or one of the two
+			// instructions is special / memory-ordering (special edge)
+			ctl := false
+			for _, gd := range GuardsOf(cs.Block()) {
+				if DependsOn(gd.Cond, func(v ssa.Value) bool {
+					n, _, ok := FieldNameOfLoad(v)
+					return ok && n == "jumpTargets"
+				}) {
+					ctl = true
 				}
-				c.Oblige("C06.g", key, pos, g, "control edge not conditional on jump targets of the last instruction")
-			case "findSpecialDeps":
-				ok, why := specialWitness(fn, cs)
-				c.Oblige("C06.g", key, pos, ok, why)
-			default:
-				c.Fail("C06.g", key, pos, "addDep call site in an unknown finder: no conflict witness rule")
 			}
+			if ctl {
+				c.Pass("C06.g", key, pos, "control edge")
+				continue
+			}
+			ok, why := specialWitness(fn, cs)
+			if !ok {
+				why = "the edge is added without a witness of conflict (no table hit, no jump target of the last instruction, and: " + why + ")"
+			}
+			c.Oblige("C06.g", key, pos, ok, why)
 		}
 	}
 	c.RequireCount("C06.g addDep call sites", total, 11)
